@@ -1,6 +1,7 @@
 CONSTANTS LOCSYMSIGHT = 3
-          MaxLen = 4 MaxDepth = 3 Focus = "scope2" Devs = {} CaseModes = {FALSE}
+          MaxLen = 4 MaxDepth = 3 Focus = "scope2" CaseModes = {FALSE}
+          DevSets = {{}} CheckConst = FALSE
 SPECIFICATION Spec
-INVARIANTS LookupAgreesWithManual ExtraPassAgrees ConvergesInTwo StackMirrorsText
+INVARIANTS LookupAgreesWithManual ExtraPassAgrees ConvergesInTwo StackMirrorsText StacksNonEmpty
 PROPERTIES ConstNeverChanges RedefIsError
 CHECK_DEADLOCK FALSE
